@@ -14,5 +14,8 @@ pub mod props {
     pub mod c06;
     pub mod c07;
     pub mod c08;
+    pub mod c09;
+    pub mod c10;
+    pub mod c11;
     pub mod c12;
 }
